@@ -7,6 +7,12 @@ NOTE = ('Trusted: clang-14 front end/-O1, vlib/ll2c.py (differentially validated
         'CBMC C semantics and solvers. Bounds (loop unwindings with --unwinding-assertions, fixture family, request budgets) are listed in the evidence file; '
         'everything outside them is outside the claim.')
 CHECKS = {
+ 'C01': ('One-step inductive check on the real templates instantiated for a fixture family: from EVERY configuration satisfying the representation invariant Inv (symbolic fork arrays), one public API entry (update, immediate* of every kind to every state, reset, queued requests + update, constructor path) with nondeterministic guard/update callbacks (approve/cancel/substitute/request any kind to any state) preserves Inv, keeps the forks well-formed inside every callback, and the API-level statement (isActive/activeSubState) holds for every Inv state.', '4 C01'),
+ 'C02': ('Full equality of the (active, resumable) vectors produced by the real processTransitions with a reference model written from the statement (sequential application of the batch on the pending configuration, kind-driven recursive resolution, schedule, later-overrides-earlier), for every Inv pre-state, every request kind, every destination (case split) and batches of 2 (3 in thorough); reset() and no-request processing included.', '4 C02'),
+ 'C03': ('Lifecycle monitor automaton in the callback stub (enter/exit alternate, parent-before-child nesting, callbacks only on entered states, this == access<State>()) over one symbolic step from every Inv state, plus whole-life runs construct -> step -> destroy / enter() -> step -> exit() (Manual).', '4 C03'),
+ 'C04': ('Every guard invocation symbolically approves, cancels or substitutes; monitor proves guards precede lifecycle callbacks, a step in which no round was approved changes nothing but scheduled resumables and leaves nothing pending, and the number of rounds is bounded by SUBSTITUTION_LIMIT (also via the unwinding assertion of the round loop with the library default 4).', '4 C04'),
+ 'C05': ('Exact comparison of the callback trace of update()/react()/query() with a reference trace generated from the statement, for every Inv configuration, both reaction orders, every consuming state and phase (solver variables) and injected handlers.', '4 C05'),
+ 'C08': ('Two symbolic configurations (incl. not-activated for Manual), real save -> load -> save with CBMC bounds/pointer checks on: instance untouched by save, active and resumable forks reproduced, enter/exit deltas, bit-identical re-save.', '4 C08'),
  'C18': ('BitArrayT<N> (all members, dynamic and static views) against set semantics on a ghost mask with symbolic contents, indices and view geometry; bit streams write<W>/read<W> round trip with symbolic values and prior buffer content for case-split alignments and width sequences (all W in 1..32 in pairs in the thorough tier).', '4 C18'),
  'C19': ('TaskListT<void|payload,C> for C in {1,2,3,5}: every bounded sequence of symbolic insert/remove/clear from the empty pool AND a one-step inductive query from every pool state satisfying the representation invariant (covers histories of any length per capacity); DynamicArrayT/StaticArrayT against ghost sequences.', '4 C19'),
  'C20': ('Every bundled generator kernel is symbolically executed from the IR of the real header and compared, for ALL 32/64-bit seeds and ALL 128/256-bit states, with reference implementations written from the published splitmix/xoshiro algorithms (step, jump, seeding never all-zero, [0,1) range, storage-independent construction). Bounded only by the jump()/retry loop unwindings, which are checked by unwinding assertions.', '4 C20'),
